@@ -46,8 +46,21 @@ CONC = {
         "long": {"pid_3": "patient_identifier_list", "cx_1": "id_number", "pid_8": "administrative_sex"},
     },
 }
+CONC["qpd"] = {      # an open-ended segment (last field of type varies): fields beyond the defined ones
+    "L": [["qpd_2"], ["qpd_1", "ce_1"], ["qpd_1", "ce_2"]],     # (a write into a field of type varies also creates its VARIES_1)
+    "pos": [[2, 1, 1], [1, 1, 1], [1, 2, 1]],
+    "ro": [["qpd_10"], ["qpd_4"], ["qpd_3"], ["qpd_30"]],
+    "long": {},
+}
+CONC["zseg"] = {
+    "L": [["zin_2"], ["zin_5"], ["zin_9"]],
+    "pos": [[2, 1, 1], [5, 1, 1], [9, 1, 1]],
+    "ro": [["zin_4"], ["zin_12"], ["zin_1"]],
+    "long": {},
+}
 ABS_LEAF = {("a", "x", "m", "t"): 0, ("a", "y"): 1, ("b", "x"): 2}
 # assigning a plain text to an intermediate element: (chain assigned, chain of the leaf the text lands in)
+ASSIGN_EXTRA = {"qpd": [], "zseg": []}
 ASSIGN = {
     "seg": [(["pid_3"], ["pid_3", "cx_1"]), (["pid_3", "cx_4"], ["pid_3", "cx_4", "hd_1"]), (["pid_5"], ["pid_5", "xpn_1", "fn_1"])],
     "fld": [(["cx_4"], ["cx_4", "hd_1"]), (["cx_6"], ["cx_6", "hd_1"])],
@@ -67,6 +80,10 @@ def make_root(kind, version, strict):
     lvl = VL.STRICT if strict else VL.TOLERANT
     if kind == "seg":
         return Segment("PID", version=version, validation_level=lvl)
+    if kind == "qpd":
+        return Segment("QPD", version=version, validation_level=lvl)
+    if kind == "zseg":
+        return Segment("ZIN", version=version, validation_level=lvl)
     if kind == "fld":
         return Field("PID_3", version=version, validation_level=lvl)
     if kind == "msg":
@@ -97,7 +114,11 @@ def observe(root):
         valid = "v:%s:%d:%d" % (r.is_valid, len(r.errors), len(r.warnings))
     except Exception as ex:
         valid = "exc:" + exc_name(ex)
-    return rows(root), cps(root.to_er7()), valid
+    try:
+        trail = cps(root.to_er7(trailing_children=True))
+    except Exception as ex:
+        trail = cps("exc:" + exc_name(ex))
+    return rows(root), cps(root.to_er7()), valid, trail
 
 
 def designators(chain):
@@ -194,10 +215,66 @@ def run_ops(kind, version, strict, ops, record_from):
                 e = {"op": "Write", "path": designators(conc["L"][op[1]]), "how": "setattr", "v": cps(op[2]),
                      "pos": conc["pos"][op[1]], "leaf": op[1]}
             e.update({"outcome": outcome, "pre": pre[0], "post": post[0], "encpre": pre[1], "encpost": post[1],
-                      "validpre": pre[2], "validpost": post[2], "kind": kind, "ver": version, "strict": strict})
+                      "validpre": pre[2], "validpost": post[2], "trailpre": pre[3], "trailpost": post[3],
+                      "kind": kind, "ver": version, "strict": strict})
             events.append(e)
         pre = post
     return events
+
+
+XEC = {"FIELD": "!", "COMPONENT": "$", "SUBCOMPONENT": "@", "REPETITION": "*", "ESCAPE": "?", "SEGMENT": "\r", "GROUP": "\r"}
+SAME_CASES = [   # (chain of a Message ADT_A01, how the elements of the chain are created beforehand, text with roles C S R)
+    (["pid", "pid_5"], [("add_segment", "PID"), ("add_field", "PID_5")], "ASDCB"),
+    (["pid", "pid_5", "xpn_1"], [("add_segment", "PID"), ("add_field", "PID_5"), ("add_component", "XPN_1")], "ESF"),
+    (["pid", "pid_3"], [("add_segment", "PID"), ("add_field", "PID_3")], "1CCCXSYSZCMR"),
+    (["pid", "pid_13"], [("add_segment", "PID"), ("add_field", "PID_13")], "5CPCH"),
+    (["evn", "evn_2"], [("add_segment", "EVN"), ("add_field", "EVN_2")], "2020"),
+    (["adt_a01_insurance", "in1", "in1_2"], [("add_group", "ADT_A01_INSURANCE"), ("add_segment", "IN1"), ("add_field", "IN1_2")], "PCQ"),
+]
+
+
+def same_events(version, strict):
+    """the same write through a pending chain, through a chain whose last element is pending, and through an existing chain"""
+    import_hl7apy()
+    from hl7apy.core import Message
+    from hl7apy.consts import VALIDATION_LEVEL as VL
+    lvl = VL.STRICT if strict else VL.TOLERANT
+    out = []
+    for ecname, ec in (("default", None), ("custom", XEC)):
+        seps = {"C": "^", "S": "&", "R": "~"} if ec is None else {"C": "$", "S": "@", "R": "*"}
+        for chain, makers, roles in SAME_CASES:
+            text = "".join(seps.get(ch, ch) for ch in roles)
+            for how in ("value", "setattr"):
+                for existing in (0, len(makers) - 1):          # (a) vs: nothing exists / all but the last element exist
+                    res = []
+                    outcome = "ok"
+                    for made in (existing, len(makers)):
+                        try:
+                            kw = {"encoding_chars": dict(ec)} if ec else {}
+                            m = Message("ADT_A01", version=version, validation_level=lvl, **kw)
+                            m.msh.msh_7 = "20200101"
+                            el = m
+                            for fn, nm in makers[:made]:
+                                el = getattr(el, fn)(nm)
+                            x = m
+                            for a in chain[:-1]:
+                                x = getattr(x, a)
+                            if how == "value":
+                                getattr(x, chain[-1]).value = text
+                            else:
+                                setattr(x, chain[-1], text)
+                            res.append((rows(m), cps(m.to_er7())))
+                        except Exception as ex:
+                            outcome = exc_name(ex)
+                            res.append(([], []))
+                    out.append({"op": "Same", "how": how, "path": designators(chain), "v": cps(text), "pos": [], "outcome": outcome,
+                                "a": res[0][0], "enca": res[0][1], "b": res[1][0], "encb": res[1][1], "kind": "msg:" + ecname,
+                                "ver": version, "strict": strict, "pre": [], "post": [], "existing": existing})
+    return out
+
+
+def _same_chunk(args):
+    return same_events(*args)
 
 
 def _chunk(args):
@@ -303,6 +380,9 @@ def run(ctx):
                             continue
                         steps += 1
                         events.append(e)
+    for part in pmap(_same_chunk, [(version, strict) for version in versions for strict in (False, True)]):
+        events.extend(part)
+        steps += len(part)
     # identical observations are judged once
     import json
     uniq = {}
@@ -322,7 +402,7 @@ def run(ctx):
         ctx.fail(signature(e, clause), {"event": e, "clause": clause})
     for e in events[:2] + events[-2:]:
         ctx.sample({"kind": e["kind"], "op": e["op"], "how": e["how"], "path": e["path"],
-                    "enc_after": "".join(chr(c) for c in e["encpost"]), "rows_after": len(e["post"])})
+                    "enc_after": "".join(chr(c) for c in e.get("encpost", e.get("encb", []))), "rows_after": len(e["post"])})
     ctx.rule = ("LazyMC graph states (which of three leaf chains are materialised, with which value) x reads (every "
                 "prefix of the chains + never-written chains) x 15 ways of reading, and writes of each leaf; random "
                 "reads interleaved before every write; random walks; on Segment PID, Field PID_3, Message ADT_A01 "
